@@ -202,3 +202,33 @@ def diverse(rnd, n, crops=None, soils=None, focus=None):
                       irr=irr, field=field, fallow=fallow, gw=gw, iwc=iwc, off_season=off, events=events, soil_spec=soil_spec)
         out.append(sc)
     return out
+
+
+def hard_cases(rnd, n=None, year=2001):
+    """Scenarios built to reach rarely executed branches of the pipeline (each found useful against an independently seeded change):
+    water backing up over an impeding layer on non-uniform grids, bunds removed / lowered with water standing, ponding that starts under a
+    canopy, pre-irrigation on a dry start, death during yield formation, a season after a crop failure, start before planting with jumps
+    between seasons, binding harvest dates with off-season, rising water table into the root zone, thermal crops with several seasons."""
+    import datetime as _dt
+    p0 = _dt.date(year, 4, 20)
+    wet = [{"date": dstr(p0 + _dt.timedelta(days=70 + k)), "P": 90} for k in range(6)]
+    S = scenario
+    cases = [
+        S("Tomato", seed=rnd.randrange(10 ** 6), soil_spec=LAYERED_SOILS["impeding_uneven"], iwc={"value": ["SAT", "SAT"], "depth_layer": [1, 2]}, events=storm_events(year, (4, 20), (120, 60, 60, 60))),
+        S("Maize", seed=rnd.randrange(10 ** 6), soil_spec=LAYERED_SOILS["low_ksat"], iwc={"value": ["SAT", "SAT"], "depth_layer": [1, 2]}, regime="wet"),
+        S("PaddyRice", "Paddy", seed=rnd.randrange(10 ** 6), regime="monsoon", field={"bunds": True, "z_bund": 0.2, "bund_water": 100}, off_season=True, seasons=2, iwc={"value": ["SAT", "SAT"], "depth_layer": [1, 2]}),
+        S("PaddyRice", "Paddy", seed=rnd.randrange(10 ** 6), regime="monsoon", field={"bunds": True, "z_bund": 0.05, "bund_water": 60}, fallow={"bunds": True, "z_bund": 0.02}, off_season=True, seasons=2, iwc={"value": ["SAT", "SAT"], "depth_layer": [1, 2]}),
+        S("Maize", "Clay", seed=rnd.randrange(10 ** 6), field={"bunds": True, "z_bund": 0.25}, events=wet),
+        S("Sorghum", "Loam", seed=rnd.randrange(10 ** 6), seasons=2, irr={"method": 4, "kw": {"NetIrrSMT": 75}}, iwc={"value": ["WP"]}),
+        S("Maize", "Sand", seed=rnd.randrange(10 ** 6), regime="warm", events=[{"from": dstr(p0 + _dt.timedelta(days=62)), "to": f"{year}/12/31", "P": 0, "ET0": 11, "Tmax": 36, "Tmin": 22}]),
+        S("Wheat", "SandyLoam", seed=rnd.randrange(10 ** 6), seasons=3, iwc={"wc_type": "Pct", "value": [8]}, events=[{"from": f"{year}/04/01", "to": f"{year}/09/30", "P": 0, "ET0": 8.5}]),
+        S("Sorghum", "Loam", seed=rnd.randrange(10 ** 6), lead=37, seasons=3, irr={"method": 2, "kw": {"IrrInterval": 9, "AppEff": 75, "MaxIrr": 15}}),
+        S("Sorghum", "Loam", seed=rnd.randrange(10 ** 6), seasons=2, off_season=True, harvest_date="07/01", irr={"method": 5, "kw": {"depth": 3}}),
+        S("Potato", seed=rnd.randrange(10 ** 6), soil_spec=LAYERED_SOILS["three_layer"], iwc={"value": ["WP", "SAT", "FC"], "depth_layer": [1, 2, 3]},
+          gw={"water_table": "Y", "method": "Variable", "dates": [f"{year}/04/20", f"{year}/06/20", f"{year}/09/01"], "values": [1.5, 0.3, 1.0]}),
+        S("MaizeGDD", "SandyLoam", seed=rnd.randrange(10 ** 6), regime="hot", seasons=2, lead=12, irr={"method": 1, "kw": {"SMT": [70, 70, 70, 0]}}, iwc={"wc_type": "Pct", "value": [40]}),
+        S("Cotton", "SiltLoam", seed=rnd.randrange(10 ** 6), regime="hot", irr={"method": 1, "kw": {"SMT": [80] * 4, "AppEff": 70, "MaxIrr": 12}}),
+        S("Barley", "Clay", seed=rnd.randrange(10 ** 6), plant_md=(12, 20), year=year - 1, seasons=2, harvest_date="03/10", off_season=True),
+    ]
+    rnd.shuffle(cases)
+    return cases if n is None else cases[:n]
